@@ -83,6 +83,22 @@ pub fn boundary_name() -> impl Strategy<Value = MName> {
         .prop_map(|(t, l, f)| name_of_wire_len(t, l, f).unwrap_or_else(MName::root))
 }
 
+/// A name of ONE label whose octets are 'x' followed by the wire form of `base` without its root
+/// label: its own wire form ends with `base`'s wire form although it has fewer labels than `base`
+/// and is not at or below it. None when the label would exceed 63 octets or `base` is the root.
+pub fn merged_confusable(base: &MName) -> Option<MName> {
+    if base.labels.is_empty() {
+        return None;
+    }
+    let w = base.wire();
+    let mut label = vec![b'x'];
+    label.extend_from_slice(&w[..w.len() - 1]);
+    if label.len() > 63 {
+        return None;
+    }
+    Some(MName { labels: vec![label] })
+}
+
 /// Small label alphabet so that collisions, case variants, shared suffixes and
 /// wildcard matches are frequent.
 pub const POOL_LABELS: &[&[u8]] = &[b"a", b"b", b"c", b"ns", b"mx", b"www", b"*", b"A", b"B", b"Ns", b"WWW", b"sub", b"x"];
